@@ -73,7 +73,8 @@ class LibraryDied(MachineryError):
 
 
 FATAL_PAT = re.compile(r'fatal error: (runtime: out of memory|runtime: cannot allocate memory|out of memory|stack overflow|'
-                       r'concurrent map [\w ]+|all goroutines are asleep - deadlock!)|runtime: goroutine stack exceeds')
+                       r'concurrent map [\w ]+|all goroutines are asleep - deadlock!|sync: [Uu]nlock of unlocked \w+|sync: RUnlock of unlocked RWMutex)|'
+                       r'runtime: goroutine stack exceeds')
 LIB_FRAME = 'github.com/alibaba/sentinel-golang/'
 
 
